@@ -18,7 +18,9 @@ pub const ALPHAS: [f64; 4] = [0.0, 1e-3, 1.0, 10.0];
 pub const TOLS: [f64; 2] = [1e-4, 1e-6];
 pub const NOISE: [f64; 3] = [0.0, 0.1, 0.4];
 pub const SCALES: [f64; 2] = [1.0, 10.0];
-pub const MAX_ITER: usize = 2000;
+/// first fit; a non-stationary result is re-fitted with twice as many iterations. Kept small so that the slowest
+/// legitimate case stays far below the per-case time limit (a fit that never returns must be told from a slow one).
+pub const MAX_ITER: usize = 300;
 
 #[derive(Debug, Clone, Serialize, Deserialize)]
 pub struct GRow {
